@@ -5,6 +5,7 @@ import posixpath
 import fnmatch
 import re
 import common as C
+import gen_path
 
 PROPERTIES = ["C19"]
 MANIFEST = {
@@ -15,11 +16,36 @@ MANIFEST = {
         "design_ref": "DESIGN.md 3/C19",
     }
 }
-PROPS = ["Nstd.Path.Props", "Nstd.Path.FsProps", "Nstd.Path.Props2", "Nstd.Path.FsProps2", "Nstd.Path.PropsStr"]
+PROPS = ["Nstd.Path.Props", "Nstd.Path.FsProps", "Nstd.Path.Props2", "Nstd.Path.FsProps2", "Nstd.Path.PropsStr", "Nstd.Path.PropsScan"]
 LEAN_TARGETS = PROPS + ["drv_path"]
 DRIVER = "drv_path"
 SOURCES = ["path.cpp", C.REPO / "src/File.cpp", C.REPO / "src/Directory.cpp", C.REPO / "src/String.cpp",
            C.REPO / "src/Memory.cpp"]
+
+
+def translate(repo=None):
+    """(ok, message): the bodies of the path scanners of the CURRENT src/File.cpp -> lean/Nstd/Generated/PathScan.lean
+    (tools/gen_path.py); a shape outside the understood C++ subset is refused = broken tie"""
+    try:
+        return True, "path scanners translated: " + gen_path.generate(repo or C.REPO)
+    except gen_path.Refuse as e:
+        return False, "tools/gen_path.py refuses the current src/File.cpp (broken tie): " + str(e)
+    except OSError as e:
+        return False, "tools/gen_path.py: " + str(e)
+
+
+def gen(ctx):
+    ok, msg = translate()
+    if ctx is not None:
+        ctx.cov.setdefault("translated", msg)
+        ctx.log("translator: " + msg)
+    return ok, msg
+
+
+def setup():
+    ok, msg = translate()
+    if not ok:
+        print("path translate:", msg)
 
 
 def hx(s):
@@ -330,11 +356,11 @@ def check(ctx):
         "readdir may report DT_UNKNOWN for any entry (oracle of the model; interposed in the harness: all entries / names ending in an odd byte); libc fnmatch(pattern, name, 0) behaves as the Lean definition fnmatchM for patterns without '[' and '\\'",
         "theorems about Directory::unlink / File::rename assume a well-formed world and (unlink) a plain path; every model state reached in the run is checked for well-formedness by the driver",
     ]
-    proof_ok = C.proof_stage(ctx, PROPS, [DRIVER], leanchecker=(ctx.tier == "thorough"))
-    gen = extract_wild(ctx)
-    if gen is None:
+    proof_ok = C.proof_stage(ctx, PROPS, [DRIVER], gen=gen, leanchecker=(ctx.tier == "thorough"))
+    wgen = extract_wild(ctx)
+    if wgen is None:
         ctx.broken.append("PatternMatcher::szWildMatch7 not found in src/Directory.cpp: the tie of the wildcard matcher model is broken")
-    harness = C.build_harness(ctx, "path", SOURCES, extra_flags=[f"-I{gen}"] if gen else [])
+    harness = C.build_harness(ctx, "path", SOURCES, extra_flags=[f"-I{wgen}"] if wgen else [])
     drv = C.driver_path(DRIVER)
     if harness is None or not drv.exists():
         return
@@ -374,9 +400,9 @@ def check(ctx):
         except OSError:
             pass
         cleanup_scratch()
-        if gen:
+        if wgen:
             import shutil
-            shutil.rmtree(gen, ignore_errors=True)
+            shutil.rmtree(wgen, ignore_errors=True)
 
 
 def is_fs_history(h):
